@@ -1,4 +1,6 @@
 import FluteModel.Lemmas.ObjRecvProto
+import FluteModel.Lemmas.DrainObj
+import FluteModel.Lemmas.ObjRecvTotal
 /-
   Object-level part of C04 (untrusted input: no packet sequence can panic or hang the receiver).
   Owner of C04 (props.d, parser + session level): agent recv.
@@ -13,13 +15,24 @@ import FluteModel.Lemmas.ObjRecvProto
     * `dw_loop_no_hang`            - the `loop` of `decode_write_pkt` returns within `2·len + 2` iterations provided `decoder_read`
                                      returns: two iterations in a row without room in the ring end it (false before D15);
     * `no_writer_call_after_terminal` (from C09) is what makes the D17 class impossible.
-  MISSING for `push_total` (named): (a) `partition::block_length` does not underflow for `sbn < nb_blocks` (now guaranteed to be the only
-  way it is called, D6 repaired) - this is C07 (4), needs `L + E < 2^64`; (b) `total_allocated_blocks_size` / `nb_allocated_blocks` never
-  underflow in `write_blocks` (invariant: they are the sum / count over the allocated blocks of the deque); (c) [now proved: `write_loop_no_hang`, `write_blocks_no_hang`,
-  `cache_loop_no_own_hang`: fuel adequacy of `write_blocks` and `push_from_cache`]; (d) `decoder_read` terminates: contract on the
-  decompressor (finite output per input byte).  Each of (a)-(d) is exercised on every run by engine orecv: the model reports
-  `PANIC` / `TIMEOUT` exactly where it leaves `.ok`, the implementation runs under catch_unwind + a 5 s watchdog, and the two are compared
-  line by line (families mutate, rs2m, cenc-tiny, cenc-empty-block, limits); defects found that way and repaired: D6, D15, D30, D32.
+  PROVED for EVERY state (reachable or not), every packet / FDT entry, every writer behaviour, under the decompressor contract `DzOK`
+  (path's `DzContract` + measure below the model's inner fuel; inhabited, see the last `example`):
+    * `push_no_hang`, `attach_no_hang`, `run_no_hang` - NO HISTORY HANGS the object receiver (all four loops: `decoder_read`,
+      the `loop` of `decode_write_pkt`, the `while` of `write_blocks`, `push_from_cache`);
+    * `bwWrite_total` (Lemmas/ObjRecvTotal.lean) - `BlockWriter::write` returns (no panic, no hang) whenever a BlockWriter exists,
+      with `decoderRead_total`, `dwLoop_total`, `decodeWritePkt_total`, `bwData_total`, `bwFinish_total`.
+  STILL MISSING for `push_total` = no PANIC in reachable states (the C03/C09 theorems therefore keep `run = .ok`):
+  a state invariant carried through every function of the model with (a) writer = none -> no BlockWriter; BlockWriter -> transfer length
+  known and != 0; OTI known -> transfer length known; blocks allocated -> OTI known; OTI unknown and transfer length known -> FDT attached
+  [excludes the four `debug_assert` / `unwrap` panics of open/push_to_block2/attach_fdt]; (b) an initialised, not completed block has a
+  decoder [`init_gives_decoder` + `block_push_total` are the local steps]; (c) the partition fields are `block_partitioning(B, L, E)` of
+  the object's OTI with L < 2^48, E < 2^16, so `block_length(sbn)` does not underflow for sbn < nb_blocks (C07); (d) the SUM invariant
+  `total_allocated_blocks_size` = sum of `block_size` over the initialised blocks of the deque and `nb_allocated_blocks` = their number,
+  as long as no terminal call cleared the deque [excludes the two underflows of `write_blocks` and, with max_size < 2^63, the add
+  overflow of `push_to_block2`].  None of (a)-(d) is proved over histories; each is exercised on every run by engine orecv: the model
+  reports `PANIC` / `TIMEOUT` exactly where it leaves `.ok`, the implementation runs under catch_unwind + a 5 s watchdog, the two are
+  compared line by line (families mutate, rs2m, cenc-tiny, cenc-empty-block, limits); defects found that way and repaired: D6, D15,
+  D30, D32.
 -/
 namespace Flute.Props.C04.Obj
 open Flute Flute.FecDec Flute.ObjRecv
@@ -41,6 +54,8 @@ theorem init_gives_decoder (c : Codec) (b : Block) (o : Oti) (k bs sbn : Nat) (b
     (hb : b.initialized = false) (h : b.init c o k bs sbn = .ok b') : b'.dec.isSome = true ∧ b'.initialized = true := by
   unfold Block.init at h
   rw [if_neg (by simp [hb])] at h
+  split at h
+  · simp at h
   dsimp only at h
   split at h
   · simp at h; rw [← h]; simp
@@ -70,12 +85,17 @@ theorem block_push_total (c : Codec) (b : Block) (payload : Bytes) (esi : Nat)
       | inr h2 => simp_all
     | some d =>
       dsimp only
-      split <;> rfl
+      split
+      · rfl
+      · split <;> rfl
 
-/-- the `loop` of `decode_write_pkt`: with `2·len + 2` units of fuel it never runs out, as long as `decoder_read` returns. -/
+/-- the `loop` of `decode_write_pkt`: with `2·len + 2` units of fuel it never runs out, as long as `decoder_read` - called with the
+    fuel the loop really passes, `P.dzFuel` - returns.  (An earlier version quantified the hypothesis over ALL fuels, which is false
+    at fuel 0 and made the theorem vacuous: found by agent path.)  The hypothesis is discharged from the decompressor contract in
+    `dw_loop_no_hang_contract`. -/
 theorem dw_loop_no_hang (P : Params) (pkt : Bytes) :
     ∀ (fuel off : Nat) (stalled : Bool), off ≤ pkt.length → 2 * (pkt.length - off) + (if stalled then 1 else 2) ≤ fuel →
-      (∀ f s x, decoderRead P f s x ≠ .error .hang) →
+      (∀ s x, decoderRead P P.dzFuel s x ≠ .error .hang) →
       ∀ st w, dwLoop P fuel st w pkt off stalled ≠ .error .hang := by
   intro fuel
   induction fuel with
@@ -87,7 +107,7 @@ theorem dw_loop_no_hang (P : Params) (pkt : Bytes) :
     · simp
     · dsimp only
       split
-      · rename_i f heq; intro hc; simp at hc; subst hc; exact hdr _ _ _ heq
+      · rename_i f heq; intro hc; simp at hc; subst hc; exact hdr _ _ heq
       · simp
       · split
         · simp
@@ -108,6 +128,28 @@ theorem dw_loop_no_hang (P : Params) (pkt : Bytes) :
             · have hlt : off + min (‹DzSt›.cap - 1 - (‹DzSt›).ring.length) (pkt.length - off) ≤ pkt.length := by omega
               simp [hs]
               split at hf <;> omega
+
+/-- `decode_write_pkt`'s loop never hangs for a decompressor meeting path's `DzContract` (a measure of the output it can still hand out,
+    used up by every non-empty read - measured on the real flate2 decoders by engine `ring`, op `dc`) whose measure stays below the
+    model's inner fuel `P.dzFuel` (adequacy of the fuel constant). -/
+theorem dw_loop_no_hang_contract (P : Params) (C : Flute.Lemmas.DrainObj.DzContract P)
+    (hfuel : ∀ c hist avail, C.mu c hist avail < P.dzFuel) (pkt : Bytes) (st : St) (w : BW) :
+    dwLoop P (2 * pkt.length + 2) st w pkt 0 false ≠ .error .hang := by
+  apply dw_loop_no_hang P pkt _ 0 false (by omega) (by simp)
+  intro s x
+  apply Flute.Lemmas.DrainObj.decoderRead_no_hang P C
+  unfold Flute.Lemmas.DrainObj.bwMu
+  cases hx : x.dz with
+  | none => have := hfuel .null [] []; simp only []; omega
+  | some dz => exact hfuel _ _ _
+
+/-- non-vacuity of `dw_loop_no_hang_contract`: a decompressor that always answers `Err` meets the contract with measure 0 and any
+    positive fuel -/
+example (pkt : Bytes) (st : St) (w : BW) :
+    dwLoop { codec := ⟨fun _ _ => false, fun _ _ _ => none, fun _ _ _ _ _ => none, fun _ _ _ => false, fun _ _ _ => none⟩,
+             dzRead := fun _ _ _ => ⟨0, .err⟩, dzFuel := 1, md5 := fun _ => "",
+             env := ⟨fun _ => ⟨.store, true, true, fun _ => true⟩⟩ } (2 * pkt.length + 2) st w pkt 0 false ≠ .error .hang :=
+  dw_loop_no_hang_contract _ ⟨fun _ _ _ => 0, by intro c h call out hres; simp at hres⟩ (by intro _ _ _; exact Nat.zero_lt_one) pkt st w
 
 /-- `complete()`, `error()`, Drop and `cache()` are total (plain functions of the model: no arithmetic that can overflow except the
     checked addition of `cache`, which returns Err). -/
@@ -203,5 +245,196 @@ theorem cache_loop_no_own_hang (P : Params) (fuel : Nat) (st : St)
       · rename_i f heq; intro hc; simp at hc; subst hc; exact hp _ _ heq
       · simp
       · exact ih _
+
+/-! ### No hang, for EVERY state (reachable or not), every packet, every FDT entry, every writer behaviour
+
+The hypotheses of `write_loop_no_hang`, `write_blocks_no_hang`, `cache_loop_no_own_hang` above quantify over all states; they are
+satisfiable: under the decompressor contract `DzOK` (path's `DzContract` + "the measure is below the model's inner fuel") they are
+discharged here, and the end result - `push_no_hang`, `attach_no_hang`, `run_no_hang` - has the contract as its only hypothesis
+(non-vacuity: the `example` at the end instantiates it). -/
+
+theorem decoder_read_no_hang (P : Params) (D : DzOK P) (st : St) (w : BW) : decoderRead P P.dzFuel st w ≠ .error .hang := by
+  apply Flute.Lemmas.DrainObj.decoderRead_no_hang P D.C
+  unfold Flute.Lemmas.DrainObj.bwMu
+  cases hx : w.dz with
+  | none => have := D.fuel .null [] []; simp only []; omega
+  | some dz => exact D.fuel _ _ _
+
+theorem bw_write_no_hang (P : Params) (D : DzOK P) (st : St) (sbn : Nat) (blk : Block) : bwWrite P st sbn blk ≠ .error .hang := by
+  cases hb : st.bw with
+  | none => unfold bwWrite; simp [hb]
+  | some w =>
+    obtain ⟨a, b, h⟩ := bwWrite_total P D st sbn blk (by simp [hb])
+    rw [h]; simp
+
+theorem write_blocks_nh (P : Params) (D : DzOK P) (st : St) (sbn : Nat) : writeBlocks P st sbn ≠ .error .hang :=
+  write_blocks_no_hang P (bw_write_no_hang P D) st sbn
+
+theorem liftRs_nh {α : Type} (r : Rs α) : liftRs r ≠ .error .hang := by
+  cases r <;> simp [liftRs]
+
+theorem alloc_block_no_hang (P : Params) (st : St) (o : Oti) (tl : Nat) (pid : PayloadId) (b : Block) :
+    allocBlock P st o tl pid b ≠ .error .hang := by
+  unfold allocBlock
+  split
+  · simp
+  · dsimp only
+    split
+    · rename_i f heq
+      intro hc
+      simp at hc
+      subst hc
+      split at heq
+      · cases heq
+      · exact liftRs_nh _ heq
+    · split
+      · simp
+      · split
+        · simp
+        · split
+          · simp
+          · split <;> simp
+
+theorem push_to_block2_no_hang (P : Params) (D : DzOK P) (st : St) (p : Pkt) : pushToBlock2 P st p ≠ .error .hang := by
+  unfold pushToBlock2
+  split
+  · rename_i o tl _ _
+    split
+    · rename_i f heq
+      obtain ⟨r, hr⟩ := parse_payload_id_total o p
+      rw [hr] at heq; cases heq
+    · simp
+    · split
+      · split <;> simp
+      · split
+        · simp
+        · split
+          · simp
+          · split
+            · simp
+            · split
+              · simp
+              · split
+                · simp
+                · split
+                  · rename_i f heq; intro hc; simp at hc; subst hc; exact alloc_block_no_hang _ _ _ _ _ _ heq
+                  · simp
+                  · split
+                    · simp
+                    · split
+                      · exact write_blocks_nh P D _ _
+                      · simp
+  · simp
+
+theorem push_to_block_no_hang (P : Params) (D : DzOK P) (st : St) (p : Pkt) : pushToBlock P st p ≠ .error .hang := by
+  unfold pushToBlock
+  split
+  · rename_i f heq; intro hc; simp at hc; subst hc; exact push_to_block2_no_hang P D _ _ heq
+  · simp
+  · split <;> simp
+
+theorem push_from_cache_no_hang (P : Params) (D : DzOK P) (st : St) : pushFromCache P st ≠ .error .hang := by
+  unfold pushFromCache
+  split
+  · simp
+  · split
+    · rename_i f heq; intro hc; simp at hc; subst hc
+      exact cache_loop_no_own_hang P _ _ (push_to_block_no_hang P D) heq
+    · simp
+
+theorem init_blocks_partitioning_no_hang (st : St) : initBlocksPartitioning st ≠ .error .hang := by
+  unfold initBlocksPartitioning
+  split
+  · simp
+  · split
+    · split
+      · rename_i f heq; intro hc; simp at hc; subst hc; exact liftRs_nh _ heq
+      · simp
+    · simp
+
+theorem init_object_writer_no_hang (P : Params) (st : St) : initObjectWriter P st ≠ .error .hang := by
+  unfold initObjectWriter
+  split
+  · simp
+  · split
+    · dsimp only
+      split
+      · simp
+      · simp
+      · unfold openWriter
+        dsimp only
+        split
+        · simp
+        · split <;> simp
+    · simp
+
+/-- **`push` never hangs**: any state, any packet -/
+theorem push_no_hang (P : Params) (D : DzOK P) (st : St) (p : Pkt) : push P st p ≠ .error .hang := by
+  unfold push
+  split
+  · simp
+  · split
+    · rename_i f heq; intro hc; simp at hc; subst hc; exact init_blocks_partitioning_no_hang _ heq
+    · split
+      · rename_i f heq; intro hc; simp at hc; subst hc; exact init_object_writer_no_hang _ _ heq
+      · split
+        · rename_i f heq; intro hc; simp at hc; subst hc; exact push_from_cache_no_hang P D _ heq
+        · split
+          · simp
+          · split
+            · split <;> simp
+            · split
+              · rename_i f heq; intro hc; simp at hc; subst hc; exact push_to_block_no_hang P D _ _ heq
+              · simp
+              · simp
+
+/-- **`attach_fdt` never hangs**: any state, any FDT entry -/
+theorem attach_no_hang (P : Params) (D : DzOK P) (st : St) (id : Nat) (f : Option FileEntry) :
+    attachFdt P st id f ≠ .error .hang := by
+  unfold attachFdt
+  split
+  · simp
+  · split
+    · simp
+    · split
+      · rename_i e heq; intro hc; simp at hc; subst hc
+        unfold attachMeta at heq
+        dsimp only at heq
+        split at heq <;> cases heq
+      · split
+        · rename_i e heq; intro hc; simp at hc; subst hc; exact init_blocks_partitioning_no_hang _ heq
+        · split
+          · rename_i e heq; intro hc; simp at hc; subst hc; exact init_object_writer_no_hang _ _ heq
+          · split
+            · rename_i e heq; intro hc; simp at hc; subst hc; exact push_from_cache_no_hang P D _ heq
+            · split
+              · rename_i e heq; intro hc; simp at hc; subst hc; exact write_blocks_nh P D _ _ heq
+              · split
+                · rename_i e heq; intro hc; simp at hc; subst hc; exact push_from_cache_no_hang P D _ heq
+                · simp
+
+/-- **no history hangs the object receiver**, from any start state -/
+theorem run_no_hang (P : Params) (D : DzOK P) (st : St) (ops : List Op) : run P st ops ≠ .error .hang := by
+  induction ops generalizing st with
+  | nil => simp [run]
+  | cons op ops ih =>
+    unfold run
+    split
+    · rename_i e heq; intro hc; simp at hc; subst hc
+      cases op with
+      | push p => exact push_no_hang P D _ _ (by simpa [step] using heq)
+      | attach id f =>
+        simp only [step] at heq
+        split at heq
+        · rename_i e' h'; cases heq; exact attach_no_hang P D _ _ _ h'
+        · cases heq
+    · exact ih _
+
+/-- non-vacuity: `DzOK` is inhabited (a decompressor that always answers `Err`, measure 0, fuel 1), so `run_no_hang` applies -/
+example (st : St) (ops : List Op) :
+    run { codec := ⟨fun _ _ => false, fun _ _ _ => none, fun _ _ _ _ _ => none, fun _ _ _ => false, fun _ _ _ => none⟩,
+          dzRead := fun _ _ _ => ⟨0, .err⟩, dzFuel := 1, md5 := fun _ => "",
+          env := ⟨fun _ => ⟨.store, true, true, fun _ => true⟩⟩ } st ops ≠ .error .hang :=
+  run_no_hang _ ⟨⟨fun _ _ _ => 0, by intro c h call out hres; simp at hres⟩, by intro _ _ _; exact Nat.zero_lt_one⟩ st ops
 
 end Flute.Props.C04.Obj
